@@ -51,6 +51,38 @@ def gen_mesh_exact(rng, nd=None):
     return dict(exact=True, p1=[S(x) for x in p1], p2=[S(x) for x in p2], n=n, tf=S(tf), int_corners=int_corners)
 
 
+def gen_mesh_big(rng):
+    """one axis with hundreds .. tens of thousands of cells (index arithmetic in narrow integer types,
+    strategies that switch with size)"""
+    m = gen_mesh_exact(rng, nd=rng.choice([1, 1, 2, 3]))
+    m["int_corners"] = False
+    a = rng.randrange(len(m["n"]))
+    k = rng.choice([127, 128, 129, 200, 255, 256, 257, 300, 1000, 32767, 32768, 40000, 70000])
+    p1, p2 = [F(x) for x in m["p1"]], [F(x) for x in m["p2"]]
+    cell = F(rng.choice([1, 3, 5]), 2 ** rng.randint(0, 4))
+    lo = min(p1[a], p2[a])
+    p1[a], p2[a] = (lo, lo + k * cell) if rng.random() < 0.5 else (lo + k * cell, lo)
+    m["p1"], m["p2"] = [S(x) for x in p1], [S(x) for x in p2]
+    m["n"][a] = k
+    m["big_axis"] = a
+    return m
+
+
+def gen_indices_big(rng, m):
+    n, a = m["n"], m["big_axis"]
+    out = []
+    for j in (0, 1, 63, 64, 127, 128, 129, 254, 255, 256, 16383, 16384, 32767, 32768, n[a] - 2, n[a] - 1,
+              rng.randint(0, n[a] - 1), rng.randint(0, n[a] - 1)):
+        if 0 <= j < n[a]:
+            i = [rng.randint(0, k - 1) for k in n]
+            i[a] = j
+            out.append(("big-in", i))
+    i = [rng.randint(0, k - 1) for k in n]
+    i[a] = rng.choice([n[a], n[a] + 1, -1])
+    out.append(("big-out", i))
+    return out
+
+
 def gen_mesh_scale(rng, nd=None):
     nd = nd or rng.choice([1, 2, 2, 3, 3, 3, 4])
     s = rng.choice(SCALES)
@@ -251,6 +283,11 @@ def generate(rng, tier):
             m = derive_mesh(rng, gen_mesh_exact(rng))
             if m is None:
                 continue
+        # the lattice does not depend on the boundary conditions of the mesh
+        if len(m["n"]) <= 3:
+            m["bc"] = rng.choice(["", "", "x", "xyz"[:len(m["n"])], "xyz"[len(m["n"]) - 1], "neumann", "dirichlet"])
+        else:
+            m["bc"] = rng.choice(["", "", "neumann", "dirichlet"])
         for cls, i in gen_indices(rng, m):
             cases.append(dict(kind="i2p", mesh=m, cls=cls, i=i))
         for cls, p in (probes_exact(rng, m) if m["exact"] else probes_scale(rng, m)):
@@ -262,6 +299,14 @@ def generate(rng, tier):
                               what=rng.choice(["nan", "inf", "-inf"]), np_type=rng.random() < 0.5))
         if math.prod(m["n"]) <= 64:
             cases.append(dict(kind="lattice", mesh=m))
+    for k in range(max(4, nm // 5)):
+        m = gen_mesh_big(rng)
+        m["n_type"] = rng.choice(["list", "tuple", "int64", "uint64", "int32"])
+        m["bc"] = rng.choice(["", "x"])
+        for cls, i in gen_indices_big(rng, m):
+            cases.append(dict(kind="i2p", mesh=m, cls=cls, i=i))
+        for cls, p_ in probes_exact(rng, m):
+            cases.append(dict(kind="p2i", mesh=m, cls=cls, p=p_))
     for k in range(nm * 2):
         cases.append(gen_bycell(rng, exact=(k % 2 == 0)))
     for k in range(nm // 2):
@@ -292,7 +337,7 @@ def build(m):
     if m.get("int_corners"):
         p1, p2 = [int(x) for x in p1], [int(x) for x in p2]
     region = df.Region(p1=p1, p2=p2, tolerance_factor=fl(m["tf"]))
-    mesh = df.Mesh(region=region, n=typed_n(src["n"], m.get("n_type", "list")))
+    mesh = df.Mesh(region=region, n=typed_n(src["n"], m.get("n_type", "list")), bc=m.get("bc", ""))
     if m.get("pre"):
         _ = mesh.cell, mesh.dV, len(mesh)
         mesh.index2point((0,) * len(src["n"]))
@@ -453,8 +498,11 @@ def run_case(c):
         inr = len(i) == len(n) and all(0 <= a < k for a, k in zip(i, n))
         # the same index spelled as list / ndarray / numpy integers gives the same outcome
         alts = [list(i), np.array(i, dtype=np.int64), tuple(np.int32(a) for a in i)]
-        if all(0 <= a < 256 for a in i):
-            alts.append(tuple(np.uint8(a) for a in i))
+        for dt in (np.int8, np.uint8, np.int16, np.uint16, np.uint32, np.uint64):
+            info = np.iinfo(dt)
+            if all(info.min <= a <= info.max for a in i):
+                alts.append(tuple(dt(a) for a in i))
+                alts.append(np.array(i, dtype=dt))
         for alt in alts:
             st_a, p_a = attempt(lambda: mesh.index2point(alt))
             if st_a != st or (st == "ok" and not np.array_equal(p_a, p)):
@@ -540,8 +588,12 @@ def run_case(c):
 
     if kind == "lattice":
         nd = len(n)
-        idxs = [list(map(int, i)) for i in mesh.indices]
-        pts = [js(p) for p in mesh]
+        idxs = [list(map(int, i)) for i in list(mesh.indices)]
+        kept = list(mesh)            # the points are kept beyond the iteration step, as list(mesh) does
+        pts = [js(p) for p in kept]
+        if len(kept) > 1 and any(x is y or np.shares_memory(x, y) for x, y in zip(kept, kept[1:])
+                                 if isinstance(x, np.ndarray) and isinstance(y, np.ndarray)):
+            rec["oracle"].append("iteration-yields-shared-object")
         cells = [js(getattr(mesh.cells, d)) for d in mesh.region.dims]
         verts = [js(getattr(mesh.vertices, d)) for d in mesh.region.dims]
         cf = mesh.coordinate_field()
